@@ -419,7 +419,7 @@ pub struct LibCloneStats {
 
 /// the livelock budget of a library-level clone grows with the bytes it is given to scan (see
 /// cli::run_cli_os)
-fn with_budget_for<R>(bytes: u64, f: impl FnOnce() -> R) -> R {
+pub fn with_budget_for<R>(bytes: u64, f: impl FnOnce() -> R) -> R {
     let before = simkit::with(|s| {
         let b = s.step_budget;
         s.step_budget = b.saturating_add(bytes.saturating_mul(8));
